@@ -27,9 +27,8 @@ pub struct In<const N: usize> {
 
 fn table<S: Src, const N: usize>(s: &mut S) -> In<N> {
     // a symbolic 3-entry operator table: (base priority 0..=99, commutative flag)
-    let tp = [s.u8(), s.u8(), s.u8()];
+    let tp = [s.choice(100), s.choice(100), s.choice(100)];
     let tc = [s.bool(), s.bool(), s.bool()];
-    for k in 0..3 { s.assume(tp[k] <= 99); }
     let mut i = In { prio: [0; N], idx: [0; N], comm: [false; N] };
     for k in 0..N {
         let e = s.choice(3) as usize;
@@ -61,7 +60,13 @@ fn check_perm_desc<const N: usize>(i: &In<N>, order: &[usize]) {
     assert!(order.len() == N, "C01 O-perm: one entry per operator");
     for k in 0..N { assert!(pos(order, k) < N, "C01 O-perm: every operator is applied exactly once"); }
     for a in 0..N { for b in 0..N {
-        if i.prio[a] > i.prio[b] { assert!(pos(order, a) < pos(order, b), "C01 O-desc: higher priority is applied first"); }
+        if i.prio[a] > i.prio[b] {
+            #[cfg(not(kani))]
+            if !(pos(order, a) < pos(order, b)) && std::env::var("U6_DEBUG").is_ok() {
+                eprintln!("a={} b={} prio={:?} comm={:?} idx={:?} order={:?}", a, b, i.prio, i.comm, i.idx, order);
+            }
+            assert!(pos(order, a) < pos(order, b), "C01 O-desc: higher priority is applied first");
+        }
     } }
 }
 
@@ -85,6 +90,11 @@ fn flat_perm_desc<S: Src, const N: usize, const M: usize>(s: &mut S) {
     let ops = flat_ops(&i);
     let nodes: [FlatNode<i32>; M] = core::array::from_fn(|_| FlatNode { kind: if s.bool() { FlatNodeKind::Num(1) } else { FlatNodeKind::Var(0) }, unary_op: UnaryOp::new() });
     let order = prioritized_indices_flat(&ops, &nodes);
+    #[cfg(not(kani))]
+    if std::env::var("U6_DEBUG").is_ok() {
+        let lits: Vec<bool> = nodes.iter().map(|n| matches!(n.kind, FlatNodeKind::Num(_))).collect();
+        eprintln!("lits={:?}", lits);
+    }
     check_perm_desc(&i, &order);
     core::mem::forget((order, ops, nodes));
 }
@@ -140,5 +150,11 @@ harness!(flat_last_4, unwind = 7, |s| { flat_last::<S, 4, 5>(s) });
 harness!(deep_perm_desc_4, unwind = 7, |s| { deep_order::<S, 4, 5>(s, false) });
 harness!(deep_ltr_4, unwind = 7, |s| { deep_order::<S, 4, 5>(s, true) });
 
-registry!("u6", flat_perm_desc_3, flat_ltr_3, flat_last_3, deep_perm_desc_3, deep_ltr_3,
+// native-only sampled probes beyond the inline capacity of the index SmallVec (32): the same contract
+// bodies with 40 operators; run by `exmex_replay --search`, never under Kani, never counted as proved
+pub fn flat_perm_desc_40<S: Src>(s: &mut S) { flat_perm_desc::<S, 40, 41>(s) }
+pub fn flat_ltr_40<S: Src>(s: &mut S) { flat_ltr::<S, 40, 41>(s) }
+pub fn deep_ltr_40<S: Src>(s: &mut S) { deep_order::<S, 40, 41>(s, true) }
+
+registry!("u6", flat_perm_desc_40, flat_ltr_40, deep_ltr_40, flat_perm_desc_3, flat_ltr_3, flat_last_3, deep_perm_desc_3, deep_ltr_3,
     flat_perm_desc_4, flat_ltr_4, flat_last_4, deep_perm_desc_4, deep_ltr_4);
